@@ -3,7 +3,7 @@ import os, sys
 sys.path.insert(0, os.path.dirname(__file__))
 from transplant import *
 
-DST = "/verif/harness/d_net/src/gen"
+DST = os.path.join(os.path.dirname(os.path.dirname(os.path.abspath(__file__))), "harness", *"d_net/src/gen".split("/"))
 ROOTS = {
     "libp2p": "crate::shim::libp2p",
     "ant_protocol": "crate::shim::ant_protocol",
